@@ -45,7 +45,23 @@ def _cond_attempt_modes(ctx):
     from .paths import enumerate_paths, cmp_atom
     from .norm import view
     f = ctx.func("_attempt_schemas")
-    paths = [p for p in enumerate_paths(view(f, ctx.prog).body) if p.exit == "raise" and "ValueError" in norm(p.exit_node)]
+    vb_ = view(f, ctx.prog).body
+    # table form: `for name, resolver in TABLE: if mode == name: return ...` followed by the raise
+    from .rules_t import deref_const, str_elts
+    from .paths import always_exits
+    for i, st in enumerate(vb_):
+        if isinstance(st, ast.For) and isinstance(st.target, ast.Tuple) and st.target.elts and i + 1 < len(vb_) \
+                and isinstance(vb_[i + 1], ast.Raise) and "ValueError" in norm(vb_[i + 1]):
+            tbl = deref_const(ctx, f, st.iter)
+            if isinstance(tbl, (ast.Tuple, ast.List)) and all(isinstance(r, ast.Tuple) and r.elts and isinstance(r.elts[0], ast.Constant)
+                                                              for r in tbl.elts):
+                keys = {r.elts[0].value for r in tbl.elts}
+                k0 = norm(st.target.elts[0])
+                dispatch = [b for b in st.body if isinstance(b, ast.If) and norm(b.test) in (f"mode == {k0}", f"{k0} == mode")
+                            and always_exits(b.body)]
+                if dispatch and keys >= {"anyOf", "oneOf", "allOf"}:
+                    return True, f"the raise follows a dispatch loop over a constant table with keys {sorted(keys)}"
+    paths = [p for p in enumerate_paths(vb_) if p.exit == "raise" and "ValueError" in norm(p.exit_node)]
     if not paths:
         return False, "the ValueError raise was not found"
     for p in paths:
